@@ -7,7 +7,7 @@
 (*            yield (10 handlers)                                          *)
 (*     post : what follows the yield (after a normal resume, or after a    *)
 (*            handler that swallowed): stop | yield | raise                *)
-(* (12 handlers) crossed with the way the with-block ends (8 outcomes).  The machine has *)
+(* (13 handlers) crossed with the way the with-block ends (8 outcomes).  The machine has *)
 (* the steps of `async with`: Enter (generator to its first yield),        *)
 (* Block (the body ends), Exit (the generator is resumed, thrown into or   *)
 (* closed -- exactly once -- and answers), Classify (__aexit__ decides).   *)
@@ -22,7 +22,7 @@ EXTENDS Naturals, Sequences, TLC, Json, CSV
 CONSTANTS OutFile
 
 Pres == {"raise", "noyield", "yield"}
-Handlers == {"none", "finally", "swallow", "reraise", "raisenew", "raisenewfromnone",
+Handlers == {"none", "finally", "swallow", "reraise", "raisenew", "raisenewfromnone", "raisenewfrom",
              "raisesametype", "return", "yieldagain", "raisesai", "raisertfrom", "raisert"}
 Posts == {"stop", "yield", "raise"}
 Outcomes == {"normal", "Exception", "BaseException", "StopIteration", "StopAsyncIteration",
@@ -65,6 +65,8 @@ OnThrow ==
     [] prog.h = "swallow" -> AfterYield
     [] prog.h = "raisenew" -> "new:NewError"
     [] prog.h = "raisenewfromnone" -> "new:NewError"
+    \* `raise NewError() from exc`: having the thrown exception as __cause__ makes no RuntimeError of it
+    [] prog.h = "raisenewfrom" -> "new:NewError"
     [] prog.h = "raisesametype" -> IF IsStop(o) THEN "conv-of-new" ELSE "new:" \o o
     [] prog.h = "return" -> "returns"
     [] prog.h = "yieldagain" -> "yields"
